@@ -29,9 +29,22 @@ hp(void *p)
 	return ((unsigned) x) & (TBL - 1);
 }
 
+#include <execinfo.h>
 static void
 rec(void *p, size_t sz)
 {
+	// debugging aid: ACCT_TRACE_SIZE=<n> prints the stack of every allocation of n bytes
+	static long trace_sz = -1;
+	if (trace_sz == -1) {
+		const char *e = getenv("ACCT_TRACE_SIZE");
+		trace_sz      = e != NULL ? atol(e) : 0;
+	}
+	if (trace_sz > 0 && (size_t) trace_sz == sz) {
+		void *bt[24];
+		int   n = backtrace(bt, 24);
+		fprintf(stderr, "ACCT: trace alloc of %zu bytes -> %p\n", sz, p);
+		backtrace_symbols_fd(bt, n, 2);
+	}
 	unsigned i = hp(p);
 	while (tbl[i].p != NULL && tbl[i].p != (void *) 1) {
 		i = (i + 1) & (TBL - 1);
